@@ -779,7 +779,12 @@ impl Sim for C12 {
         let n_ops = if huge {
             rng.range(260, 330)
         } else if large {
-            rng.range(25, 70)
+            if rng.chance(1, 2) {
+                rng.range(25, 70)
+            } else {
+                // Insert-heavy runs that end near a power of two of entries.
+                *rng.pick(&[15usize, 16, 17, 18, 31, 32, 33, 34, 63, 64, 65, 66, 100])
+            }
         } else {
             match rng.below(10) {
                 0 => 0,
@@ -821,7 +826,7 @@ impl Sim for C12 {
             }
         };
         let hex = |rng: &mut Rng, mixed: bool| -> String {
-            let len = *rng.pick(&[0usize, 1, 1, 2, 4, 16, 20, 32, 48, 64, 100]);
+            let len = *rng.pick(&[0usize, 1, 1, 2, 4, 8, 11, 12, 16, 20, 32, 48, 63, 64, 65, 100, 128, 129]);
             let mut s = String::new();
             for _ in 0..len * 2 {
                 let digits: &[u8] = if mixed && rng.chance(1, 2) { b"0123456789ABCDEF" } else { b"0123456789abcdef" };
